@@ -54,6 +54,15 @@ def gen(ctx):
         "o1,100000,0 q s1000 q w1,100000 q w0,100000 q",
         "o1,200000,0 o3,100000,0 q s0 q w1,1 q w1,300000 w3,300000 w0,1000000 q",
         "s20000 o1,100000,0 o3,100000,0 o5,100000,0 o7,100000,0 q w1,100000 w3,100000 w5,100000 w7,100000 q w0,1000000 q",
+        # a SETTINGS_INITIAL_WINDOW_SIZE change that overflows a live stream's window is a CONNECTION error
+        # (RFC 9113 6.9.2); the neighbouring values are not
+        "o1,100000,0 q w1,2147483647 q s65536 q",
+        "o1,100000,0 q w1,2147483647 q o3,2048,0 s65536 q",
+        "o1,100000,0 q w1,2147483646 q s65536 q w0,100000 q",
+        "o1,100000,0 q w1,2147483647 q s65535 q s65534 q w0,100000 q",
+        # WINDOW_UPDATE on an idle stream (never opened) is a connection error; on a retired one it is ignored
+        "o1,2048,0 q w5,100 q",
+        "o1,2048,0 q w1,100 q o3,100000,0 q w0,100000 w3,100000 q",
     ]
     lines += ["fc " + f for f in fixed]
     n = 60 if ctx.quick else 600
